@@ -42,10 +42,13 @@ pub fn meta_std() -> StandardLibrary {
 }
 
 fn checker() -> Checker<toml::value::Value> {
-    Checker::new(CheckerConfig::default(), meta_std()).unwrap()
+    // global_usage is off by default and has a setting that reads a name: switch it on, with a pattern
+    let config: CheckerConfig<toml::value::Value> =
+        toml::from_str("[lints]\nglobal_usage = \"warn\"\n[config]\nglobal_usage = { ignore_pattern = \"^foo$\" }\n").unwrap();
+    Checker::new(config, meta_std()).unwrap()
 }
 
-const TEMPLATES: [&str; 20] = [
+const TEMPLATES: [&str; 22] = [
     "local t, i, x = {}, 1, 2\nt[i] = x\nx = t[i]\n",
     "local a, c = {}, {}\na.b = c.d\nc.d = a.b\n",
     "local t, i = {}, 1\nold(t[i], -1)\nprint(t[i].x == 0/0, t[i] ~= 0/0)\n",
@@ -66,6 +69,8 @@ const TEMPLATES: [&str; 20] = [
     "local x = 5\nif x == 0/0 then end\nprint(1 / 0, x)\n",
     "local t = { a = 1, a = 2, 3 }\nprint(t == {})\n",
     "local s = \"\\m\"\nprint(s)  print(s)\n",
+    "print(string.rev(\"a\"), math.clamp(1, 0, 2))\nstring.nope(1)\n",
+    "_G.foo = 1\n_G.bar, _G.foo = 2, 3\nprint(_G.foo)\n",
 ];
 
 pub fn fixtures() -> Vec<String> {
@@ -217,7 +222,7 @@ fn pick_program(r: &mut Rng, fx: &[String]) -> (String, &'static str) {
 }
 
 /// script variables that share a name with a library global (C14: the name must not matter)
-const LIBNAMED: [&str; 16] = [
+const LIBNAMED: [&str; 18] = [
     "local math = {}\nx, math.y = 1, 2\nprint(math)\n",
     "local function f(table)\n  y, table.z = 1, 2\n  return table\nend\nprint(f)\n",
     "local os = {}\n_G.q, os.clock = 1, 2\nprint(os)\n",
@@ -236,6 +241,9 @@ const LIBNAMED: [&str; 16] = [
     // names that are prefixes of one another, in the places where lints compare or print code text
     "local item, items = 1, { 2 }\nitem = items\nitems = item\nprint(item, items)\n",
     "local node, nodes = {}, {}\nnode.next = nodes.next\nnodes.next = node.next\nif node then print(1) elseif nodes then print(2) elseif node then print(3) end\n",
+    // a script binding spelled like a library root, the library's own entry used outside its scope
+    "local function size(table)\n  return #table\nend\nprint(table.getn({}), size)\nold(1)\n",
+    "local function check(x)\n  local function assert(cond)\n    return cond\n  end\n  return assert(x)\nend\nassert(check(1), \"msg\")\nlocal function old(a) return a end\nprint(old(1, 2))\n",
 ];
 
 const RESERVED: [&str; 12] = ["self", "_G", "_", "type", "typeof", "require", "game", "script", "workspace", "plugin", "shared", "_ENV"];
